@@ -318,6 +318,25 @@ for (tag, dfs, uw) in (("mantis", [], 9),):
       functions=["vector block functions (%s, 128-bit)" % tag], timeout=3600, tier="thorough",
       note="vector block functions: rounds public, schedule / data / tweaks secret")
 
+# Skinny vector block functions (128-bit and 256-bit back ends): C08 for EVERY round count by a loop contract on the round
+# loop of the two-run self-composition (harness/h_ct_vecloop.c): one observation (the loop condition) per iteration, the
+# witness record of run 1 preserved through run 2, data path havocked and unconstrained.  The `.r2` companions unwind
+# rounds <= 2 without any loop contract: bounded, but a failure there is a concrete two-run trace through the real loop.
+for (tag, d, fl, fn) in (("s128a", "CT_VEC_S128", ["-msse2"], "_skinny128_parallel_%s_vec128"),
+                         ("s64", "CT_VEC_S64", ["-msse2"], "_skinny64_parallel_%s_vec128")):
+    # (("s128b", "CT_VEC_S128B", ["-mavx2"], "_skinny128_parallel_%s_vec256") is supported by the harness but not registered: CBMC's
+    #  "Generic Property Instrumentation" of the 8-lane functions did not finish within 30 minutes of CPU time, with or without loop contract)
+    for (dr, dd) in (("encrypt", []), ("decrypt", ["CT_DIR_DEC=1"])):
+        J("ct.vecloop_%s.%s" % (tag, dr), ["C08"], "h_ct_vecloop.c", "h_ct_vecloop", loops=True, defs=[d + "=1"] + dd, cflags=fl,
+          must_have=_CT + LC, functions=[fn % dr], timeout=(3600 if tag == "s128b" else 2400), tier=("thorough" if tag == "s128b" else "quick"),
+          note="loop contract (unbounded in the round count): observations so far == n0 + (rounds - index); run 1's witness record is "
+               "'condition true' inside the loop's span and untouched outside it; run 2 leaves it untouched; rows/temp havocked: "
+               "public = round count, secret = schedule, blocks, previous output")
+        J("ct.vecloop_%s.%s.r2" % (tag, dr), ["C08"], "h_ct_vecloop.c", "h_ct_vecloop", loops=False, unwind=3, defs=[d + "=1", "CT_BOUNDED=2"] + dd,
+          cflags=fl, must_have=_CT, functions=[fn % dr], timeout=(3600 if tag == "s128b" else 2400), tier=("thorough" if tag == "s128b" else "quick"),
+          bounded="rounds <= 2 unwound (companion of the loop-contract job: turns a broken loop proof into a concrete two-run trace); complete over secrets",
+          note="same harness without the loop contract, rounds <= 2")
+
 # ------------------------------------------------------------------ C20: example tools against the ghost file model
 _EXLIB_CTR = ["parse_options", "skinny128_ctr_init", "skinny64_ctr_init", "skinny128_ctr_cleanup", "skinny64_ctr_cleanup", "skinny128_ctr_set_key",
               "skinny64_ctr_set_key", "skinny128_ctr_set_counter", "skinny64_ctr_set_counter", "skinny128_ctr_encrypt", "skinny64_ctr_encrypt"]
@@ -471,7 +490,7 @@ for _j in JOBS:
 # reports as UNDECIDED, never as a violation.
 import re as _re
 _LOOPY = _re.compile(r"(ecb_encrypt|ecb_decrypt|set_tk[123]$|xor_tk1$|\.def_encrypt$|^v\w+\.encrypt$|^p\w+\.(encrypt|decrypt|crypt)$|"
-                     r"^a\w+\.\w+\.(encryptBlock|decryptBlock|setTK[123]|xorTK1|clear|tclear|clean)$|^am\.(encryptBlock|clear)$|^actr\.(encrypt|clear)$|^i\.(cleanse|xor)$|ecb_crypt|overlap_|^ex\.\w+_main$|^ex\.parse_options$|\.eblock$|^pv\w+\.|^lemma\.)")
+                     r"^a\w+\.\w+\.(encryptBlock|decryptBlock|setTK[123]|xorTK1|clear|tclear|clean)$|^am\.(encryptBlock|clear)$|^actr\.(encrypt|clear)$|^i\.(cleanse|xor)$|ecb_crypt|overlap_|^ct\.vecloop_\w+\.(encrypt|decrypt)$|^ex\.\w+_main$|^ex\.parse_options$|\.eblock$|^pv\w+\.|^lemma\.)")
 for _j in JOBS:
     if _j.loops and not _LOOPY.search(_j.id):
         _j.loops = False
